@@ -21,6 +21,8 @@ for name in sorted(os.listdir(os.path.join(VERIF, "seeded"))):
     if not os.path.exists(mp):
         continue
     m = json.load(open(mp))
+    if "round" not in m and "round 1" in (m.get("origin") or ""):
+        m["round"], m["kind"] = 1, m.get("kind") or "bug"
     if m.get("round") not in rounds:
         continue
     st, info = verdict.get(name, ("?", "not in the log"))
